@@ -153,7 +153,7 @@ pub fn run(rep: &mut Report) {
 	let us = units(if thorough { 3 } else { 2 });
 	let (max_items, max_leaves) = if thorough { (3, 400_000) } else { (2, 20_000) };
 	rep.rule = format!(
-		"SAE: every schema of the shared alphabet Σ_S (level {}), every value from the boundary alphabet Σ_V with collections of <= {} items (odometer over the value's choice tree, per-schema leaf cap {}), each executed in 3 presentation styles (unions by type where unambiguous / by branch name; records as struct / as map), then decoded in 3 observation modes (deserialize_any / hinted enums and typed leaves / Option for nullable unions) from slice, whole-buffer reader and 1-byte-chunk reader; oracle: reference decoder returns the value and the observation equals the expected one (floats by bits, borrowed-ness on the slice path). Plus 18 families of ordinary Rust types (derived Serialize/Deserialize: structs, integer widths, Option, enums-as-unions with newtype and struct variants, unit enums, Vec/BTreeMap/HashMap, recursive types, Option of enums-as-unions over unions with and without a null branch, rust_decimal / duration / temporal logical types, plain integers under decimal schemas, serde newtype structs, tuples / [T; N] / tuple structs over arrays, borrowed &str/&[u8] checked to point into the input; Rust enums over non-union nodes, tuple variants, 128-bit integers; fixed-size sequence targets over arrays of every other length 0..4 in every block split must be refused) with exhaustive small value domains, bytes judged by the reference decoder and the decoded Rust value compared after translation to the reference value. Plus depth ladders: arrays / maps / records nested k = 1..64 deep around an int must round-trip under the default depth limit and under allowed_depth = k and k+1. Non-trivial: schema is not a bare primitive or the encoding has >= 2 bytes; distinct on (schema, value).",
+		"SAE: every schema of the shared alphabet Σ_S (level {}), every value from the boundary alphabet Σ_V with collections of <= {} items (odometer over the value's choice tree, per-schema leaf cap {}), each executed in 3 presentation styles (unions by type where unambiguous / by branch name; records as struct / as map), then decoded in 3 observation modes (deserialize_any / hinted enums and typed leaves / Option for nullable unions) from slice, whole-buffer reader and 1-byte-chunk reader; oracle: reference decoder returns the value and the observation equals the expected one (floats by bits, borrowed-ness on the slice path). Plus 19 families of ordinary Rust types (derived Serialize/Deserialize: structs, integer widths, Option, enums-as-unions with newtype and struct variants, unit enums, Vec/BTreeMap/HashMap, recursive types, Option of enums-as-unions over unions with and without a null branch, rust_decimal / duration / temporal logical types, plain integers under decimal schemas, serde newtype structs, tuples / [T; N] / tuple structs over arrays, borrowed &str/&[u8] checked to point into the input; Rust enums over non-union nodes, tuple variants, 128-bit integers; fixed-size sequence targets over arrays of every other length 0..4 in every block split must be refused) with exhaustive small value domains, bytes judged by the reference decoder and the decoded Rust value compared after translation to the reference value. Plus depth ladders: arrays / maps / records nested k = 1..64 deep around an int must round-trip under the default depth limit and under allowed_depth = k and k+1. Non-trivial: schema is not a bare primitive or the encoding has >= 2 bytes; distinct on (schema, value).",
 		if thorough { 3 } else { 2 },
 		max_items,
 		max_leaves
